@@ -122,7 +122,8 @@ def check(case) -> Outcome:
         out.labels = sorted(labels)
         return out
 
-    order = None if case["order"] is None else [Variable(n) for n in case["order"]]
+    # the ordering is typed Sequence[str | Variable]: names, variables, or a mixture
+    order = None if case["order"] is None else [(n if (case["edit"] + i) % 3 == 0 else Variable(n)) for i, n in enumerate(case["order"])]
     try:
         c = canonicalize(e, order)
     except Exception as ex:
